@@ -60,6 +60,12 @@ TRANSPARENT = {
     "std::result::Result::unwrap_or": (0, ()),
     "std::option::Option::unwrap_or": (0, ()),
     "std::convert::TryInto::try_into": (0, ()),
+    "std::convert::TryFrom::try_from": (0, ()),
+    "<T as std::convert::TryFrom<U>>::try_from": (0, ()),
+    "std::ptr::const_ptr::cast_mut": (0, ()),
+    "std::ptr::mut_ptr::cast_const": (0, ()),
+    "std::ptr::const_ptr::<impl *const T>::cast_mut": (0, ()),
+    "std::ptr::mut_ptr::<impl *mut T>::cast_const": (0, ()),
     "<T as std::convert::TryInto<U>>::try_into": (0, ()),
     "std::convert::TryFrom::try_from": (0, ()),
     "std::option::Option::and_then": (0, ()),
